@@ -17,12 +17,12 @@ CHECKS = {
         note='Trusted: the scheduler shim (FIFO notify, no spurious wake-ups, re-entrant RLock), CPython queue classes; pre-emption granularity is a Python statement; only explored schedules are covered.'),
     'C05': dict(
         category='exploration', design_ref='DESIGN.md §3.2, §4 C05', engine='E2-deterministic-scheduler',
-        technique='as C04, with enumerated fault positions: every (producer, position) iterator failure, every stop point with/without exception, starvation with a timeout; offline checker over the event log (every consumer sees the failure, no duplicates, all producers return) plus exact deadlock witnesses; faults include a source whose iter() raises, failures of the exception types the queue itself uses, failed ignore_error queues, and asyncio producers with practically endless sources; an empty batch after exhaustion is a violation; exceptions that reject notes as producer failures; batch_then_away',
+        technique='as C04, with enumerated fault positions: every (producer, position) iterator failure, every stop point with/without exception, starvation with a timeout; offline checker over the event log (every consumer sees the failure, no duplicates, all producers return) plus exact deadlock witnesses; faults include a source whose iter() raises, failures of the exception types the queue itself uses, failed ignore_error queues, and asyncio producers with practically endless sources; an empty batch after exhaustion is a violation; exceptions that reject notes as producer failures; batch_then_away; native-thread scenario of a num_steps stop request arriving while every thread of the async queue\'s own executor is blocked in put()',
         text='Every failure position and stop point of every generated configuration is combined with several explored schedules; a timed wait may only expire under global starvation, so a masked lost wake-up shows up as an unexpected TimeoutError.',
         note='As C04. Elements still queued when a failure is observed may be dropped (the property only forbids duplicates).'),
     'C13': dict(
         category='exploration', design_ref='DESIGN.md §3.2, §4 C13', engine='E2-deterministic-scheduler',
-        technique='runtime monitoring under the deterministic scheduler with a shim thread-pool executor: piter_multiplex/piter_fn/piter/pmap/MultiplexIterator run to exhaustion, to every early-stop position and to every failure position; oracle = multiset equality with the sequential evaluation, generator return values, pool shut-down flags and exact all-threads-finished / deadlock witnesses; piter with a library-created pool and as many inputs as default workers',
+        technique='runtime monitoring under the deterministic scheduler with a shim thread-pool executor: piter_multiplex/piter_fn/piter/pmap/MultiplexIterator run to exhaustion, to every early-stop position and to every failure position; oracle = multiset equality with the sequential evaluation, generator return values, pool shut-down flags and exact all-threads-finished / deadlock witnesses; piter with a library-created pool and as many inputs as default workers; inputs given as list / tuple objects, also empty ones',
         text='Explores thousands of schedules per tier of the real parallel-iteration code; thread release is decided exactly (every controlled worker finished, library-owned pool shut down) instead of by thread enumeration after a sleep.',
         note='As C04; element-wise iterator functions; implicit pools only have to end idle. Known finding recorded: piter with several inputs leaves the upstream queue producers blocked on early stop/failure.'),
     'C15': dict(
@@ -62,7 +62,7 @@ CHECKS = {
         note='Generator restrictions in the evidence assumptions. Known findings: TopKRetrieval per-batch k truncation.'),
     'C11': dict(
         category='exploration', design_ref='DESIGN.md §4 C11',
-        technique='runtime metamorphic monitor on merge: all bracketings (and permutations for commutative metrics) of 2-5 states incl. fresh ones must agree; operands are snapshotted and re-read after the merge, after updating the receiver and after updating the operand (aliasing detection with deep-copied twins); result() interleaved against a twin that never read it; returned arrays scribbled for histogram-like metrics; n-ary merges of 3-7 states must leave every non-first state unchanged; reservoirs of unequal max_size merged in both directions at every fill level',
+        technique='runtime metamorphic monitor on merge: all bracketings (and permutations for commutative metrics) of 2-5 states incl. fresh ones must agree; operands are snapshotted and re-read after the merge, after updating the receiver and after updating the operand (aliasing detection with deep-copied twins); result() interleaved against a twin that never read it; returned arrays scribbled for histogram-like metrics; n-ary merges of 3-7 states must leave every non-first state unchanged; reservoirs of unequal max_size merged in both directions at every fill level; Mean-family states holding +inf and -inf (values and a NaN mean) as receivers and operands',
         text='4k state sets per quick run (80k grouping checks), 210k thorough.',
         note='As C01.'),
     'C14': dict(
@@ -92,7 +92,7 @@ CHECKS = {
         note='Trusted: transport stand-in and time dilation (S=60). One worker is never faulted. Known finding recorded: a next-batch handler that runs after its deadline can steal a batch from a re-initialised generator.'),
     'C20': dict(
         category='exploration', design_ref='DESIGN.md §3.2, §3.5, §4 C20', engine='E2-deterministic-scheduler',
-        technique='runtime monitoring in four modes: (registry) fresh WorkerRegistry with a recording dict logging every mutation from inside its critical section, driven by controlled threads under the deterministic scheduler, offline checker for dead-stays-dead / monotone heartbeats / linearizable get; (liveness) CourierClient with stub futures and a settable clock, is_alive compared with a 10-line reference model over random histories with late completions; (ownership) pools sharing workers under the scheduler with pre-emption between check and act, belief-based single-owner log; (poolops) pool operations over the simulated transport must leave no worker acquired; pools whose first-listed workers are dead or busy, a second pool probing acquire during as_completed, and all delivery orders of pushed alive / dead heartbeats of several incarnations; ownership logged per server address with pools that differ in one setting, real-transport cross_pool case',
+        technique='runtime monitoring in four modes: (registry) fresh WorkerRegistry with a recording dict logging every mutation from inside its critical section, driven by controlled threads under the deterministic scheduler, offline checker for dead-stays-dead / monotone heartbeats / linearizable get; (liveness) CourierClient with stub futures and a settable clock, is_alive compared with a 10-line reference model over random histories with late completions; (ownership) pools sharing workers under the scheduler with pre-emption between check and act, belief-based single-owner log; (poolops) pool operations over the simulated transport must leave no worker acquired; pools whose first-listed workers are dead or busy, a second pool probing acquire during as_completed, and all delivery orders of pushed alive / dead heartbeats of several incarnations; ownership logged per server address with pools that differ in one setting, real-transport cross_pool case; WorkerPool.run() beside low-level calls held in flight on the same worker (max_parallelism 2-3)',
         text='3k registry schedules, 15k liveness queries, 6k ownership schedules and 48 pool operations per quick run; x30 thorough.',
         note='Trusted: scheduler shim, stub transport futures, fake clock.'),
     'C03': dict(
